@@ -549,7 +549,7 @@ const handRuleSDL = `
 directive @rep repeatable on FIELD
 directive @once on FIELD
 directive @fd(x: Int) on FRAGMENT_DEFINITION | FIELD
-type Query { f(i: Int, l: [Int], ll: [[Int]], lln: [[Int]!], o: In, req: Int! = 5, nn: Int!): Int g(lnn: [Int!]!): Int  a: A  b: B  u: U  i: I  s: String  e(v: E): E any(x: Any): Any one(x: One): Int num(fl: Float, id: ID, fls: [Float], o: Num): Int cc: C lo(os: [In!], oo: In2, ooo: [[In2]]): Int anyn(x: Any!, l: [Any!], o: AnyIn): Int }
+type Query { f(i: Int, l: [Int], ll: [[Int]], lln: [[Int]!], o: In, req: Int! = 5, nn: Int!): Int g(lnn: [Int!]!): Int  a: A  b: B  u: U  i: I  s: String  e(v: E): E any(x: Any): Any one(x: One): Int num(fl: Float, id: ID, fls: [Float], o: Num): Int cc: C lo(os: [In!], oo: In2, ooo: [[In2]]): Int anyn(x: Any!, l: [Any!], o: AnyIn): Int wd(ids: [Int!] = [1, 2], o: InD, nn: [Int!]): Int wide(w: Wide, a0: Int, a1: Int, a2: Int): Int }
 interface I { x: Int }
 type A implements I { x: Int  z: Int  o: B  li: [Int]  lin: [Int]!  n: Int!  p: C }
 type B implements I { x: Int y: Int  z: String li: [Int]!  o: Int n: Int  p: C }
@@ -557,6 +557,8 @@ type C { c: Int d: Int j(a: Int): Int }
 input Num { fl: Float id: ID }
 input In2 { inner: [In] one: In }
 input AnyIn { from: Any! to: Any }
+input InD { tags: [String!] = ["a"] plain: [String!] }
+input Wide { f0: Int f1: Int f2: Int f3: Int f4: Int f5: Int f6: Int f7: Int f8: Int f9: Int! = 9 f10: [Int] f11: In }
 directive @opd(x: Int, b: Boolean) on QUERY | MUTATION | SUBSCRIPTION | FRAGMENT_DEFINITION | FRAGMENT_SPREAD | INLINE_FRAGMENT | VARIABLE_DEFINITION | FIELD
 directive @tag on FIELD
 directive @note on FIELD
@@ -571,6 +573,17 @@ type Mutation { m: Int }
 `
 
 var handRuleDocs = []string{
+	// a nullable variable as an ITEM of a list given to a position that declares a default (the default lifts the
+	// non-null requirement of the position, not of its items)
+	`query($v: Int) { wd(ids: [$v]) }`, `query($v: Int!) { wd(ids: [$v]) }`, `query($v: Int) { wd(ids: [1, $v]) }`, `query($s: String) { wd(o: {tags: [$s]}) }`, `query($s: String!) { wd(o: {tags: [$s], plain: [$s]}) }`,
+	`query($v: Int) { wd(nn: [$v]) }`, `query($v: [Int!]) { wd(ids: $v) }`, `query($v: [Int]) { wd(ids: $v) }`, `query($s: String) { s @fd(x: 1) wd(o: {plain: [$s]}) }`,
+	// three and more fields with one response name: every pair is compared
+	`{ a { x } a { k: x } a { k: z } }`, `{ a { k: x } a { x } a { k: z } a { z } }`, `{ u { ... on A { k: x } ... on B { k: x } ... on B { k: y } } }`, `{ u { ... on A { k: z } ... on A { k: x } ... on B { k: x } } }`,
+	`{ k: s k: s k: f(nn: 1) }`, `{ k: f(nn: 1) k: f(nn: 1) k: f(nn: 2) k: f(nn: 1) }`, `{ a { k: x } a { k: x } a { k: x } }`,
+	// wide input objects and wide argument lists (more declared than given, more given than declared, unknown ones)
+	`{ wide(w: {f0: 1, f9: 2, f4: 3}) }`, `{ wide(w: {f0: 1, f1: 1, f2: 1, f3: 1, f4: 1, f5: 1, f6: 1, f7: 1, f8: 1, f9: 1, f10: [1], f11: {r: 1}}) }`, `{ wide(w: {f3: "x", f10: [1, "y"], f11: {r: null}}) }`,
+	`{ wide(w: {f0: 1, zz0: 1, zz1: 1, zz2: 1, zz3: 1, zz4: 1, zz5: 1, zz6: 1, zz7: 1, zz8: 1, zz9: 1}) }`, `{ wide(a0: 1, a1: 1, a2: 1, b0: 1, b1: 1, b2: 1, b3: 1, b4: 1, b5: 1, b6: 1, b7: 1, b8: 1) }`,
+	`{ s @skip(if: true, a: 1, b: 2, c: 3, d: 4, e: 5, f: 6, g: 7, h: 8, i: 9) }`, `{ wide(a0: 1, a0: 2, a1: 1, a1: 2, a2: 1, a2: 2, a0: 3, a1: 3, a2: 3, a0: 4) }`,
 	// null where a custom scalar is required (custom scalars take any literal, but null is no value of a non-null type)
 	`{ anyn(x: null) }`, `{ anyn(x: 1, l: [null]) }`, `{ anyn(x: 1, o: {from: null}) }`, `{ anyn(x: 1, l: [1, "a"], o: {from: {k: null}, to: null}) }`, `{ anyn }`, `query($v: Any) { anyn(x: $v) }`,
 	// oneOf input objects with an unknown key, null, both at once
